@@ -499,21 +499,7 @@ func checkSpellCycle(in spellCycleInput) string {
 func oracleC04Spell(r *rng, n int, tier string) *oracleResult {
 	exQuiet()
 	res := &oracleResult{Stats: map[string]int{}}
-	type rs struct{ root, spell string }
-	var cases []rs
-	for _, root := range []string{"file:///r/api/root.json", "http://h.example/api/root.json"} {
-		u, _ := url.Parse(root)
-		pre := u.Scheme + "://" + u.Host
-		for _, sp := range []string{pre + "/r/../" + strings.TrimPrefix(u.Path, "/"), pre + strings.Replace(u.Path, "/api/", "/api/./", 1), pre + strings.Replace(u.Path, "/api/", "/api/x/../", 1),
-			pre + strings.Replace(u.Path, "/api/", "/api//", 1), strings.ToUpper(u.Scheme) + "://" + u.Host + u.Path} {
-			cases = append(cases, rs{root, sp})
-		}
-		if u.Scheme == "file" {
-			cases = append(cases, rs{root, root + "?v=1"}, rs{root, root + "?"}, rs{root, "file:" + u.Path})
-		} else {
-			cases = append(cases, rs{root, pre + ":80" + u.Path}, rs{root, "http://H.Example" + u.Path})
-		}
-	}
+	cases := spellCycleCases()
 	fails := 0
 	for _, c := range cases {
 		for _, sh := range []string{"self", "mutual", "param-chain"} {
@@ -535,6 +521,28 @@ func oracleC04Spell(r *rng, n int, tier string) *oracleResult {
 	}
 	res.Samples = []interface{}{spellCycleInput{Root: "file:///r/api/root.json", Spell: "file:///r/api/./root.json", Shape: "self"}}
 	return res
+}
+
+type spellCase struct{ root, spell string }
+
+// spellCycleCases: a root location and another, equivalent way of writing it as an absolute URL
+func spellCycleCases() []spellCase {
+	type rs = spellCase
+	var cases []rs
+	for _, root := range []string{"file:///r/api/root.json", "http://h.example/api/root.json"} {
+		u, _ := url.Parse(root)
+		pre := u.Scheme + "://" + u.Host
+		for _, sp := range []string{pre + "/r/../" + strings.TrimPrefix(u.Path, "/"), pre + strings.Replace(u.Path, "/api/", "/api/./", 1), pre + strings.Replace(u.Path, "/api/", "/api/x/../", 1),
+			pre + strings.Replace(u.Path, "/api/", "/api//", 1), strings.ToUpper(u.Scheme) + "://" + u.Host + u.Path} {
+			cases = append(cases, rs{root, sp})
+		}
+		if u.Scheme == "file" {
+			cases = append(cases, rs{root, root + "?v=1"}, rs{root, root + "?"}, rs{root, "file:" + u.Path})
+		} else {
+			cases = append(cases, rs{root, pre + ":80" + u.Path}, rs{root, "http://H.Example" + u.Path})
+		}
+	}
+	return cases
 }
 
 func init() {
@@ -680,6 +688,8 @@ func init() {
 type elemCycleInput struct {
 	Shape string `json:"shape"`
 	Abs   bool   `json:"abs"`
+	Root  string `json:"root,omitempty"`  // spelled cycles: the root location ...
+	Spell string `json:"spell,omitempty"` // ... and the way the references of the cycle write it
 }
 
 var elemCycleShapes = []string{"pathitem-self-other", "pathitem-2cycle-other", "pathitem-self-root", "param-2cycle-other", "response-self-other", "pathitem-back-to-root"}
@@ -723,6 +733,11 @@ func elemCycleGraph(shape string) *exGraph {
 }
 
 func checkElemCycle(in elemCycleInput) []exFinding {
+	if in.Spell != "" {
+		x := exInputOf(exFromGeneric(spellCycleDocs(spellCycleInput{Root: in.Root, Spell: in.Spell, Shape: in.Shape}), in.Root))
+		x.Opts = &exOpts{Abs: in.Abs}
+		return checkC03(x)
+	}
 	x := exInputOf(elemCycleGraph(in.Shape))
 	x.Opts = &exOpts{Abs: in.Abs}
 	return checkC03(x)
@@ -743,6 +758,35 @@ func oracleC03Cyc(r *rng, n int, tier string) *oracleResult {
 				res.Stats["fail:"+f.Shape]++
 				res.Failures = append(res.Failures, failure{Property: "C03", What: "cycle of element references (" + sh + "): " + f.What, Shape: "element-cycle:" + f.Shape, Input: in, Observed: f.Obs, Expected: f.Exp})
 			}
+		}
+	}
+	// cycles whose references are absolute URLs written with dot segments, doubled slashes, another letter case, a default port or
+	// a query: the `$ref` left at the cut-point resolves from the root (fragment-only when it points into the root; the canonical
+	// absolute URL with AbsoluteCircularRef)
+	for _, c := range spellCycleCases() {
+		if i := strings.Index(c.spell, "://"); (i >= 0 && strings.Contains(c.spell[i+3:], "//")) || strings.Contains(c.spell, ":80/") || strings.Contains(c.spell, "H.Example") {
+			// doubled slashes, the default port and the letter case of the host are equivalences the reference parser applies; the
+			// reference semantics of this check does not know them (it would call the graph acyclic): termination only (C04spell)
+			continue
+		}
+		for _, sh := range []string{"self", "mutual"} {
+			for _, abs := range []bool{false, true} {
+				in := elemCycleInput{Shape: sh, Abs: abs, Root: c.root, Spell: c.spell}
+				res.Evaluations++
+				res.Distinct++
+				for _, f := range checkElemCycle(in) {
+					if strings.HasPrefix(f.Shape, "stat:") {
+						continue
+					}
+					res.Stats["fail:"+f.Shape]++
+					res.Failures = append(res.Failures, failure{Property: "C03", What: "cycle through references spelled " + c.spell + ": " + f.What, Shape: "spelled-cycle:" + f.Shape, Input: in, Observed: f.Obs, Expected: f.Exp})
+				}
+			}
+		}
+	}
+	for _, f := range res.Failures {
+		if in, ok := f.Input.(elemCycleInput); ok && in.Spell != "" {
+			res.Stats["failspell:"+in.Spell]++
 		}
 	}
 	res.Samples = []interface{}{elemCycleInput{Shape: "pathitem-self-other"}}
